@@ -15,12 +15,13 @@ enum { VK_NONE = 0, VK_OBJ, VK_ARR, VK_BOOL, VK_INT, VK_DBL, VK_STR, VK_BYT };
 enum { VR_OK = 0, VR_RANGE, VR_FORMAT, VR_MAXOBJ, VR_MAXARR };
 static const char *const vf_vr_name[] = { "OK", "RANGE", "FORMAT", "MAX_DEPTH_OBJECT", "MAX_DEPTH_ARRAY" };
 
-#define VF_MAXNODES 600
-#define VF_MAXCH    300
+#ifndef VF_MAXNODES
+#define VF_MAXNODES 600      /* drivers that need wide containers define a larger capacity before including this file */
+#endif
 
 typedef struct {
     uint8_t  kind;
-    int16_t  parent;        /* -1 for the root */
+    int32_t  parent;        /* -1 for the root */
     int32_t  nstart;        /* offset of the name token (== start when unnamed) */
     int32_t  name_off;      /* payload of the name, -1 when unnamed */
     int32_t  name_len;
@@ -30,9 +31,9 @@ typedef struct {
     int64_t  ival;
     uint64_t dbits;
     bool     bval;
-    int16_t  nch;
-    int16_t  first, last, next;   /* children as a linked list, -1 = none */
-    int16_t  idx;                 /* position among the siblings */
+    int32_t  nch;
+    int32_t  first, last, next;   /* children as a linked list, -1 = none */
+    int32_t  idx;                 /* position among the siblings */
 } vf_node;
 
 typedef struct {
@@ -95,10 +96,10 @@ static inline int vf_b_newnode(vf_doc *d, int kind)
         x->parent = -1; x->name_off = -1; x->nstart = x->start;
     } else {
         int p = d->open[d->nopen - 1];
-        x->parent = (int16_t) p;
+        x->parent = (int32_t) p;
         x->idx = d->n[p].nch;
-        if (d->n[p].last >= 0) d->n[d->n[p].last].next = (int16_t) id; else d->n[p].first = (int16_t) id;
-        d->n[p].last = (int16_t) id;
+        if (d->n[p].last >= 0) d->n[d->n[p].last].next = (int32_t) id; else d->n[p].first = (int32_t) id;
+        d->n[p].last = (int32_t) id;
         d->n[p].nch++;
         if (d->n[p].kind == VK_OBJ) {
             if (d->pend_name_off < 0) vf_die("builder: value without a name inside an object");
@@ -221,7 +222,7 @@ static inline int vf_r_mknode(vf_rctx *c, int kind, int parent, int32_t nstart, 
     vf_node *x = &d->n[id];
     memset(x, 0, sizeof *x);
     x->kind = (uint8_t) kind;
-    x->parent = (int16_t) parent;
+    x->parent = (int32_t) parent;
     x->first = x->last = x->next = -1;
     x->pay_off = -1;
     x->start = (int32_t) c->pos;
@@ -229,8 +230,8 @@ static inline int vf_r_mknode(vf_rctx *c, int kind, int parent, int32_t nstart, 
     x->nstart = name_off >= 0 ? nstart : x->start;
     if (parent >= 0) {
         x->idx = d->n[parent].nch;
-        if (d->n[parent].last >= 0) d->n[d->n[parent].last].next = (int16_t) id; else d->n[parent].first = (int16_t) id;
-        d->n[parent].last = (int16_t) id;
+        if (d->n[parent].last >= 0) d->n[d->n[parent].last].next = (int32_t) id; else d->n[parent].first = (int32_t) id;
+        d->n[parent].last = (int32_t) id;
         d->n[parent].nch++;
     }
     return id;
